@@ -279,6 +279,8 @@ class MapModel:
                 raise Reject("length mismatch")
             if extras is not None and len(extras) != len(raws):
                 raise Reject("length mismatch")
+            if mds is not None and len(mds) != len(raws):
+                raise Reject("length mismatch")
             for x in (extras or ()):
                 self._check_extra(x)
             if ws is not None and not m.weighted:
